@@ -44,6 +44,18 @@ namespace c16
     }
   }
 
+  // smallest vertex distance within a cell (harness-side mesh width)
+  template<typename Spec_> LD mesh_hmin(const Spec_& m)
+  {
+    LD h = 1e300L;
+    for(auto& c : m.cells) for(int a = 0; a < Spec_::nv; ++a) for(int b2 = a + 1; b2 < Spec_::nv; ++b2)
+    { LD s = 0; for(int d = 0; d < Spec_::dim; ++d) { LD t = (LD)m.verts[c[std::size_t(a)]][std::size_t(d)] - (LD)m.verts[c[std::size_t(b2)]][std::size_t(d)]; s += t * t; } h = std::min(h, std::sqrt(s)); }
+    return h;
+  }
+  // bound of |grad w_h| as FEAT accumulates it (sum_i w_i (x) grad phi_i): the polynomial bound plus the rounding noise of
+  // the accumulation, eps * max|w_i| * sum_i |grad phi_i| <= eps * wmax * 100 / hmin, expressed relative to the bound factor
+  template<typename Spec_> LD grad_bound(LD gwmax, LD wmax, const Spec_& m) { return gwmax + 1e-5L * wmax * 100.0L / mesh_hmin(m); }
+
   // the documented form N(w; u, psi); U, V have nb components (nb = 1: scalar operator), W = convection field (dim components)
   template<int dim_>
   Form burgers_form(const BurgersParams& p, int nb, const Poly<dim_>* W, int pw)
@@ -134,7 +146,7 @@ namespace c16
     Img IS; if(!dec(c, opn, ms, IS, "scale")) return;
     LD diam = 0; { LD lo[3] = {1e300L, 1e300L, 1e300L}, hi[3] = {-1e300L, -1e300L, -1e300L}; for(auto& v : e.spec.verts) for(int d = 0; d < dim; ++d) { lo[d] = std::min(lo[d], (LD)v[std::size_t(d)]); hi[d] = std::max(hi[d], (LD)v[std::size_t(d)]); } for(int d = 0; d < dim; ++d) diam += hi[d] - lo[d]; }
     Scale S; S.s = &IS; S.bh = dim; S.bw = dim;
-    S.cmax = 2 * std::fabs((LD)bp.nu) + std::fabs((LD)bp.theta) + std::fabs((LD)bp.beta) * wmax + std::fabs((LD)bp.frechet_beta) * gwmax
+    S.cmax = 2 * std::fabs((LD)bp.nu) + std::fabs((LD)bp.theta) + std::fabs((LD)bp.beta) * wmax + std::fabs((LD)bp.frechet_beta) * grad_bound(gwmax, wmax, e.spec)
       + (bp.sd_delta != 0 && vnorm > 0 ? std::fabs((LD)bp.sd_delta) * 2 * diam / (LD)vnorm * wmax * wmax : 0.0L) + 1e-30L;
 
     static const double alphas[4] = {1.0, -1.0, 0.66, 2.5};
